@@ -1,5 +1,5 @@
 // govc:pkg .
-// govc:bound INNER and LEFT JOIN x single and composite ON keys x 40 (thorough: 200) random histories of 30 steps (table upserts / deletes interleaved with emitted rows; keys are strings with separator bytes, ints, int-valued floats, NULL and missing)
+// govc:bound INNER and LEFT JOIN x single and composite ON keys (the composite key written in both orders) x 40 (thorough: 200) random histories of 30 steps (table upserts / deletes interleaved with emitted rows; keys are strings with separator bytes, ints, int-valued floats, NULL and missing)
 // govc:also C20
 // Bounded stand-in (NOT a proof) for the wiring around the table store under contract (ON parsing, key derivation,
 // lookup, INNER/LEFT handling, projection of joined columns): each row is enriched from the table state at the moment it is
@@ -28,6 +28,10 @@ func TestGovcBounded_join_enrichment(t *testing.T) {
 				on := "deviceId = m.deviceId"
 				if composite {
 					on += " AND tenant = m.tenant"
+					if hist%2 == 1 {
+						// the key fields in the other (not alphabetical) order: index and lookup tuple must both follow the ON clause
+						on = "tenant = m.tenant AND deviceId = m.deviceId"
+					}
 				}
 				join := "JOIN"
 				if kind == "LEFT" {
@@ -69,7 +73,9 @@ func TestGovcBounded_join_enrichment(t *testing.T) {
 						}
 						table[tk{d, tn}] = loc
 					case 1: // delete
-						if composite {
+						if composite && hist%2 == 1 {
+							src.Delete([]any{tn, d}) // a key tuple follows the order of the ON clause
+						} else if composite {
 							src.Delete([]any{d, tn})
 						} else {
 							src.Delete(d)
